@@ -72,7 +72,7 @@ def run_phase(chk, name, harness, cases, id_prefixes, prec="d", vendor=False, id
             except Exception as e: native[0] = ""; print("native replay build failed:", str(e)[:500])
         return native[0]
     seen = set(); nrep = 0
-    for v in ex.viols:
+    for v in sorted(ex.viols, key=lambda v_: 0 if v_.get("model") else 1):
         vid = v.get("id", "")
         if not mine(vid): continue
         k = (vid, tuple(v["case"]))
@@ -106,12 +106,12 @@ def run_phase(chk, name, harness, cases, id_prefixes, prec="d", vendor=False, id
 
     # ---- inconclusive obligations: second solver
     myunk = [u for u in ex.unks if mine(u.get("id", ""))]
-    rechecked = e2.cvc5_recheck(myunk[:40], timeout=max(20, qtimeout_ms // 1000 * 2)) if myunk else []
+    rechecked = e2.cvc5_recheck(myunk[:48], timeout=max(20, qtimeout_ms // 1000 * 2)) if myunk else []
     extra_dis = 0
     for u, verdict in rechecked:
         if verdict == "unsat": extra_dis += 1
         else: chk.inconclusive.append("obligation %s case %s path %s: z3 unknown, cvc5 %s" % (u.get("id"), u.get("case"), u.get("path"), verdict))
-    for u in myunk[40:]: chk.inconclusive.append("obligation %s case %s: z3 unknown (not rechecked)" % (u.get("id"), u.get("case")))
+    for u in myunk[48:]: chk.inconclusive.append("obligation %s case %s: z3 unknown (not rechecked)" % (u.get("id"), u.get("case")))
     discharged += extra_dis
 
     # ---- crashes / events
